@@ -272,8 +272,6 @@ endpats: Final = {
     "'''": r"(?:[^'\\]|\\.|'(?!''))*'''",
     '"""': r'(?:[^"\\]|\\.|"(?!""))*"""',
 }
-StartLBrace = r".*?(?=\{(?!\{)){"
-EndRBrace = r".*?(?=\}(?!\}))}"
 
 tabsize = 8
 
@@ -390,6 +388,7 @@ class EndProg:
     contline: str = ""  # str
     start: tuple[int, int] = (0, 0)
     quote: str = ""
+    raw: bool = False  # f-string with an r prefix: backslashes are not escapes
 
     def join(self, state: TokenizerState, end: int) -> None:
         self.text += state.line[state.pos : end]
@@ -462,7 +461,7 @@ def next_statement(state: TokenizerState) -> Generator[TokenInfo, None, bool | N
 
 
 def next_psuedo_matches(state: TokenizerState) -> TokenInfo | None:
-    if state.pos == state.max or state.in_fstring():
+    if state.pos == state.max or state.in_fstring() or state.in_colon():
         return None
     match = state.match(PseudoToken)
     if (not match) or (not match.lastgroup):
@@ -475,8 +474,9 @@ def next_psuedo_matches(state: TokenizerState) -> TokenInfo | None:
         quote = match.group("Quote") or '"'
         if "f" in token.lower():
             token_type = Token.FSTRING_START
-            pattern = choice(LBrace=StartLBrace, End=endpats[quote])
-            state.add_prog(end, end, pattern=pattern, quote=quote, mode=ModeMiddle(state.parenlev))
+            state.add_prog(
+                end, end, quote=quote, raw="r" in token.lower(), mode=ModeMiddle(state.parenlev)
+            )
         else:
             pattern = endpats[quote]
             state.add_prog(start, end, pattern=pattern, quote=quote)
@@ -500,7 +500,8 @@ def next_psuedo_matches(state: TokenizerState) -> TokenInfo | None:
                 state.pop_mode((state.lnum, end))
             state.parenlev -= 1
         elif token == ":" and state.in_braces() and state.at_parenlev():
-            state.add_prog(start + 1, end, mode=ModeInColon(state.parenlev), pattern=choice(RBrace=EndRBrace))
+            quote = next((p.quote for p in reversed(state.end_progs) if isinstance(p.mode, ModeMiddle)), "")
+            state.add_prog(start + 1, end, quote=quote, mode=ModeInColon(state.parenlev))
         token_type = Token.OP
     elif match.lastgroup == "End":  # // continuation
         state.continued = True
@@ -529,12 +530,63 @@ def next_end_tokens(state: TokenizerState) -> Iterator[TokenInfo]:
     yield TokenInfo(Token.ENDMARKER, "", (state.lnum, 0), (state.lnum, 0), "")
 
 
+def scan_fstring_text(line: str, pos: int, quote: str, raw: bool) -> tuple[str, int] | None:
+    """Find the end of the literal text of an f-string that starts at line[pos].
+
+    Returns ("LBrace", end) for the '{' opening a replacement field, ("End", end) for the closing
+    quote (end is the index after it), ("SingleRBrace", index) for a stray '}' or None when the
+    line is exhausted first.  '{{' and '}}' are
+    literal text, a backslash keeps the next character (and, unless raw, a whole \\N{...}) from
+    ending the text, and nothing after the closing quote is looked at.
+    """
+    i, n = pos, len(line)
+    while i < n:
+        ch = line[i]
+        if ch == "\\":
+            if not raw and line.startswith("N{", i + 1) and (j := line.find("}", i + 3)) >= 0:
+                i = j + 1
+            elif line[i + 1 : i + 2] in ("{", "}"):
+                i += 1  # the brace keeps its meaning
+            else:
+                i += 2
+        elif ch == "{":
+            if line.startswith("{", i + 1):
+                i += 2
+            else:
+                return "LBrace", i + 1
+        elif ch == "}":
+            if line.startswith("}", i + 1):
+                i += 2
+            else:
+                return "SingleRBrace", i
+        elif line.startswith(quote, i):
+            return "End", i + len(quote)
+        else:
+            i += 1
+    return None
+
+
+def scan_format_spec(line: str, pos: int) -> tuple[str, int] | None:
+    """In a format spec: the next '{' opens a nested field, the next '}' closes the field."""
+    for i in range(pos, len(line)):
+        if line[i] == "{":
+            return "LBrace", i + 1
+        if line[i] == "}":
+            return "RBrace", i + 1
+    return None
+
+
 def handle_fstring_progs(state: TokenizerState, endprog: EndProg) -> Iterator[TokenInfo]:
-    endmatch = state.match(endprog.pattern)
-    if (not endmatch) or (not endmatch.lastgroup):
+    if isinstance(endprog.mode, ModeInColon):
+        found = scan_format_spec(state.line, state.pos)
+    else:
+        found = scan_fstring_text(state.line, state.pos, endprog.quote, endprog.raw)
+    if found is None:
         return None
-    start, end = endmatch.span(endmatch.lastgroup)
-    if endmatch.lastgroup == "End":  # quote match
+    group, end = found
+    if group == "SingleRBrace":
+        raise TokenError("f-string: single '}' is not allowed", (state.lnum, end))
+    if group == "End":  # quote match
         middle_end = end - len(endprog.quote)
         if (middle_end > state.pos) or endprog.text:
             yield state.prog_token(middle_end, Token.FSTRING_MIDDLE)
@@ -550,7 +602,7 @@ def handle_fstring_progs(state: TokenizerState, endprog: EndProg) -> Iterator[To
         middle_end = end - 1
         if (middle_end > state.pos) or (endprog.text):  # has buffer
             yield state.prog_token(middle_end, Token.FSTRING_MIDDLE)
-        if endmatch.lastgroup == "LBrace":
+        if group == "LBrace":
             yield TokenInfo(
                 Token.OP,
                 "{",
@@ -598,6 +650,8 @@ def handle_end_progs(state: TokenizerState) -> Iterator[TokenInfo]:
 
     if state.in_braces() or (not state.end_progs):  # in case the state changed above
         return
+    if state.pos != pos:  # tokens were produced: come back for the rest of the line
+        return
 
     if (
         (state.pos == 0)  # called at start of the line
@@ -605,7 +659,7 @@ def handle_end_progs(state: TokenizerState) -> Iterator[TokenInfo]:
     ):
         state.end_progs[-1].join_line(state)
         state.pos = state.max
-    elif state.pos == pos:  # a single-quoted string that is neither closed nor continued on this line
+    else:  # a single-quoted string that is neither closed nor continued on this line
         raise TokenError(
             f"unterminated string literal (detected at line {state.lnum})", state.end_progs[-1].start
         )
@@ -618,6 +672,7 @@ def _tokenize(readline: Callable[[], str]) -> Iterator[TokenInfo]:
         state.move_next_line(readline)
 
         if state.end_progs:
+            state.continued = False  # a backslash inside a replacement field continues that field only
             yield from handle_end_progs(state)
 
         elif state.parenlev == 0 and not state.continued:  # new statement
